@@ -246,6 +246,8 @@ def leaves(scratch=None):
     add(DICT, "KeysEqual({'x':0,'y':0})", lambda: M.KeysEqual({"x": 0, "y": 0}), lambda v: set(v) == {"x", "y"})
     add(DICT, "KeysEqual('x','x')", lambda: M.KeysEqual("x", "x"), lambda v: set(v) == {"x"})
     add(DICT, "KeysEqual({fs2:0,fs1:0})", lambda: M.KeysEqual({frozenset({2}): 0, frozenset({1}): 0}), lambda v: set(v) == {frozenset({1}), frozenset({2})})
+    # (expected keys of different types: they do not order, the matcher still has a str())
+    add(DICT, "ContainsDict({1: Equals(0), 'x': Equals(1)})", lambda: M.ContainsDict({1: M.Equals(0), "x": M.Equals(1)}), lambda v: 1 in v and v[1] == 0 and "x" in v and v["x"] == 1)
     add(DICT, "Equals({})", lambda: M.Equals({}), lambda v: v == {})
     add(DICT, "HasLength(1)", lambda: M.HasLength(1), lambda v: len(v) == 1)
     # objects
